@@ -37,6 +37,7 @@ frozen = z3.Function("dataclass_is_frozen", Val, BoolS)
 reprf = z3.Function("repr", Val, Val)
 attr = {n: z3.Function(f"cls.{n}", Val, Val) for n in ("__name__", "__bases__", "__qualname__", "__module__", "__class__")}
 ArrB = z3.ArraySort(Val, BoolS)
+base_provides = {n: z3.Function(f"a_direct_base_already_provides{n}", Val, BoolS) for n in ("__dict__", "__weakref__")}
 
 
 def S(text):
@@ -119,6 +120,12 @@ def make_interp(st):
             self.c, self.i = c, i
     I.builtin_models[dataclasses.fields] = lambda I, path, a, k: SSeq(n_fields(to_val(a[0])), lambda i, c=to_val(a[0]): FieldObj(c, to_int(i)), "tuple")
     I.builtin_models[set] = lambda I, path, a, k: FnSet(lambda x: z3.BoolVal(False)) if not a else _MISSING
+    # taken by contract for exactly these expressions (CPython: a class whose tp_dictoffset / tp_weaklistoffset is non-zero gives
+    # its instances a __dict__ / __weakref__ - true of every class without __slots__): "some direct base already provides one"
+    I.expr_contracts = {
+        "any((b.__dictoffset__ for b in cls.__bases__))": lambda I, env, path: SBool(base_provides["__dict__"](to_val(env.lookup("cls")))),
+        "any((b.__weakrefoffset__ for b in cls.__bases__))": lambda I, env, path: SBool(base_provides["__weakref__"](to_val(env.lookup("cls")))),
+    }
     I.stubs[f"{MOD}._stack"] = st["stack"]
 
     def dictcomp(I, node, env, path, src_v):
@@ -357,11 +364,14 @@ def _one(chk, func, pid, path, out, obls, cur, dflag, wflag):
     nc, cls = out.value, cur["cls"]
     has, val = nc.ns.arrays
     has0, val0 = cur["ns0"]
-    extras = (["__dict__"] if dflag else []) + (["__weakref__"] if wflag else [])
-    # ---- S1
+    # ---- S1: an extra is requested by its flag and added unless a direct base already provides it (no second __dict__ / __weakref__)
     sl = cur["stored"].get("__slots__")
-    ok_shape, why = _slots_shape(sl, nc.names, extras)
-    chk.add(Ob(func, CLAUSES[0], pid, hy, z3.And(z3.BoolVal(ok_shape), z3.Select(has, S("__slots__"))), {"shape": why}))
+    got = list(getattr(nc.names, "extras", ()))
+    ok_shape, why = _slots_shape(sl, nc.names, got)
+    want_extras = z3.And(z3.BoolVal("__dict__" in got) == z3.And(z3.BoolVal(dflag), z3.Not(base_provides["__dict__"](cls))),
+                         z3.BoolVal("__weakref__" in got) == z3.And(z3.BoolVal(wflag), z3.Not(base_provides["__weakref__"](cls))),
+                         z3.BoolVal(got == [x for x in ("__dict__", "__weakref__") if x in got]))
+    chk.add(Ob(func, CLAUSES[0], pid, hy, z3.And(z3.BoolVal(ok_shape), want_extras, z3.Select(has, S("__slots__"))), {"shape": why}))
     # ---- S2
     x = path.fresh("x")
     j = path.fresh("j", IntS)
